@@ -22,7 +22,7 @@ def make_input_plan(T, variant, depth=1, prefix="C03"):
     return ctx, node
 
 
-def setup(T, NODE, CTX, variant, depth=1, prefix="C03"):
+def setup(T, NODE, CTX, variant, depth=1, prefix="C03", default=dataclasses.MISSING, default_factory=dataclasses.MISSING):
     S = S_()
     S.T, S.node, S.ctx, S.variant = T, NODE, CTX, variant
     S.prefix = prefix
@@ -33,7 +33,12 @@ def setup(T, NODE, CTX, variant, depth=1, prefix="C03"):
         S.RT = T
         S.wrap = lambda d: d
     else:
-        W = dataclasses.make_dataclass("W", [("x", T)], bases=(DataClassDictMixin,))
+        if variant == "field_default":
+            # a field with a non-None default: an explicit null must still arrive as None, not as the default
+            W = dataclasses.make_dataclass("W", [("x", T, dataclasses.field(default=default, default_factory=default_factory))],
+                                           bases=(DataClassDictMixin,))
+        else:
+            W = dataclasses.make_dataclass("W", [("x", T)], bases=(DataClassDictMixin,))
         S.W = W
         S.decode = W.from_dict
         S.RT = W
